@@ -70,6 +70,11 @@ Attach(n) == IF n = ROOT THEN root.apps
 Route(t) == [thr |-> LvlOf(EffName(t)), apps |-> Attach(EffName(t))]
 Enabled(t, L) == Route(t).thr >= L
 Deliveries(t, L) == IF Enabled(t, L) THEN Route(t).apps ELSE <<>>
+\* An appender's append may fail.  The outcome of one delivery plays no part in the others: Deliveries has no
+\* failure argument, and for every set F of failing appenders the error handler is called once per delivery to a
+\* member of F (Logger::log collects the errors and reports each).  The replay runs every configuration with
+\* F = {}, F = all appenders and F = {"A"}.
+Reported(t, L, F) == LET d == Deliveries(t, L) IN Cardinality({i \in 1..Len(d) : d[i] \in F})
 SetMax(S) == CHOOSE m \in S : \A x \in S : x <= m
 MaxLevelDecl == SetMax({root.lvl} \cup {loggers[n].lvl : n \in Configured})
 
